@@ -388,6 +388,10 @@ func (bsp *batchSpanProcessor) enqueueBlockOnQueueFull(ctx context.Context, sd R
 	select {
 	case bsp.queue <- sd:
 		return true
+	case <-bsp.stopCh:
+		// Shutdown was called: once the queue has been drained nothing
+		// receives from it any more, do not block on it forever.
+		return false
 	case <-ctx.Done():
 		return false
 	}
